@@ -13,8 +13,8 @@ PROPERTY = "C06"
 LEVEL = "exploration"
 EXHAUSTIVE = {"quick": True, "thorough": True}
 RULE = (
-    "22-operation alphabet over a colliding name pool (4 long names, 3 short letters, aliases, 3 argument names): add_option x6, "
-    "add_command_option x5 (0-2 aliases), add_argument x6 (required/optional/multi), add_command_name, set_options, "
+    "24-operation alphabet over a colliding name pool (4 long names, 3 short letters, aliases, 3 argument names): add_option x6, "
+    "add_command_option x7 (0-2 long/short aliases), add_argument x6 (required/optional/multi), add_command_name, set_options, "
     "set_arguments x2, set_command_options; 6 base stacks of depth 0-2. Every sequence up to length L is replayed from scratch; "
     "after the last operation builder, built format and list model answer every public query (has/get option and command "
     "option for 8 names, has/get argument by 4 names and all positions, the has_* predicates, ordered listings, each with "
@@ -24,8 +24,8 @@ RULE = (
     "collision or ordering-rule attempt (some operation rejected, or a set_* after an add_*); distinct by (base id, op tuple)."
 )
 BOUND = {
-    "quick": "all sequences of length <= 3 over 22 operations x 6 base stacks (66k), 30000 random of length 4-7, 3000 CommandConfig stacks",
-    "thorough": "all sequences of length <= 4 x 6 base stacks (1.47M), 600000 random of length 5-7, 60000 CommandConfig stacks",
+    "quick": "all sequences of length <= 3 over 24 operations x 6 base stacks (87k), 30000 random of length 4-7, 3000 CommandConfig stacks",
+    "thorough": "all sequences of length <= 4 x 6 base stacks (2.1M), 600000 random of length 5-7, 60000 CommandConfig stacks",
 }
 ASSUMPTIONS = [
     "option listings are compared as sets against the model and in order between builder and format; argument and command-name listings in order (base first)",
@@ -54,6 +54,7 @@ def A(name, kind, multi=False):
 OPS = [
     ("add", O("aa", "a")), ("add", O("aa", None)), ("add", O("bb", "a")), ("add", O("bb", "b")), ("add", O("cc", None)), ("add", O("cc", "c")),
     ("add", CO("aa", None)), ("add", CO("bb", "b")), ("add", CO("dd", None, ["aa"])), ("add", CO("dd", "c", ["a"])), ("add", CO("cc", None, ["bb", "b"])),
+    ("add", CO("cc", None, ["b"])), ("add", CO("aa", None, ["c"])),
     ("add", A("x", "req")), ("add", A("x", "opt")), ("add", A("y", "req")), ("add", A("y", "opt")), ("add", A("z", "opt", True)), ("add", A("y", "req", True)),
     ("add", ("name", "cmd", ("c1",))),
     ("set_options", (O("aa", "a"), O("bb", None))),
@@ -463,7 +464,7 @@ def run_config_stack(sh, lab, rng, n):
         m = Model(basem)
         elems = []
         for _ in range(rng.randint(0, 4)):
-            op = OPS[rng.randrange(17)]
+            op = OPS[rng.randrange(19)]
             e = op[1]
             if e[0] == "copt":
                 continue
